@@ -303,7 +303,7 @@ func runC10(r *core.Run) {
 		"the resume protocol is driven to its first error; oracle: no panic, reader error reported as exactly that value, EOF as EOF or a parse error, goroutines entirely before the cut equal (names aside) to the uncut parse, at most one partial goroutine, forwarded bytes a prefix of the uncut run's " +
 		"(or, when the cut lies before a dump's recognition point, the delivered fragment itself, as C02 demands). distinct = (stream, offset, mode); non-trivial = cut inside a dump")
 	r.Assume("a cut inside the first line of a dump (first three lines of a race report) leaves text that is not a dump; it must be passed through (C02), which a literal reading of C10's last sentence would flag")
-	n := r.N(60, 1500)
+	n := r.N(60, 5000)
 	core.Parallel(n, workers(), func(i int) {
 		s := c10Stream(r, i)
 		base, why := c10Prepare(s)
